@@ -172,7 +172,7 @@ func RoutePatternMatch(path, pattern string, cfg ...Config) bool {
 
 	parser, _ := routerParserPool.Get().(*routeParser) //nolint:errcheck // only contains routeParser
 	parser.reset()
-	parser.parseRoute(string(patternPretty))
+	parser.parseRouteWritten(string(patternPretty), pattern[:len(patternPretty)])
 	defer routerParserPool.Put(parser)
 
 	if string(patternPretty) == "/" && detectionPath == "/" {
@@ -202,19 +202,31 @@ func (parser *routeParser) reset() {
 // parseRoute analyzes the route and divides it into segments for constant areas and parameters,
 // this information is needed later when assigning the requests to the declared routes
 func (parser *routeParser) parseRoute(pattern string, customConstraints ...CustomConstraint) {
+	parser.parseRouteWritten(pattern, pattern, customConstraints...)
+}
+
+// parseRouteWritten parses pattern like parseRoute, but reads the text of the parameter constraints
+// (their names and data) from written: the same pattern as it was written, before it was lower-cased
+// for case-insensitive routing. Letter case matters in a regular expression, a datetime layout or the
+// name of a custom constraint, and ASCII lower-casing keeps every byte offset.
+func (parser *routeParser) parseRouteWritten(pattern, written string, customConstraints ...CustomConstraint) {
+	if len(written) != len(pattern) {
+		written = pattern
+	}
 	var n int
 	var seg *routeSegment
 	for len(pattern) > 0 {
 		nextParamPosition := findNextParamPosition(pattern)
 		// handle the parameter part
 		if nextParamPosition == 0 {
-			n, seg = parser.analyseParameterPart(pattern, customConstraints...)
+			n, seg = parser.analyseParameterPart(pattern, written, customConstraints...)
 			parser.params, parser.segs = append(parser.params, seg.ParamName), append(parser.segs, seg)
 		} else {
 			n, seg = parser.analyseConstantPart(pattern, nextParamPosition)
 			parser.segs = append(parser.segs, seg)
 		}
 		pattern = pattern[n:]
+		written = written[n:]
 	}
 	// mark last segment
 	if len(parser.segs) > 0 {
@@ -228,6 +240,13 @@ func (parser *routeParser) parseRoute(pattern string, customConstraints ...Custo
 func parseRoute(pattern string, customConstraints ...CustomConstraint) routeParser {
 	parser := routeParser{}
 	parser.parseRoute(pattern, customConstraints...)
+	return parser
+}
+
+// parseRouteWritten is parseRoute for a lower-cased pattern whose constraints keep the letter case of written
+func parseRouteWritten(pattern, written string, customConstraints ...CustomConstraint) routeParser {
+	parser := routeParser{}
+	parser.parseRouteWritten(pattern, written, customConstraints...)
 	return parser
 }
 
@@ -313,8 +332,9 @@ func (*routeParser) analyseConstantPart(pattern string, nextParamPosition int) (
 	}
 }
 
-// analyseParameterPart find the parameter end and create the route segment
-func (parser *routeParser) analyseParameterPart(pattern string, customConstraints ...CustomConstraint) (int, *routeSegment) {
+// analyseParameterPart find the parameter end and create the route segment;
+// written is the pattern before case folding, the constraints are read from it
+func (parser *routeParser) analyseParameterPart(pattern, written string, customConstraints ...CustomConstraint) (int, *routeSegment) {
 	isWildCard := pattern[0] == wildcardParam
 	isPlusParam := pattern[0] == plusParam
 
@@ -352,7 +372,7 @@ func (parser *routeParser) analyseParameterPart(pattern string, customConstraint
 	var constraints []*Constraint
 
 	if hasConstraint := parameterConstraintStart != -1 && parameterConstraintEnd != -1; hasConstraint {
-		constraintString := pattern[parameterConstraintStart+1 : parameterConstraintEnd]
+		constraintString := written[parameterConstraintStart+1 : parameterConstraintEnd]
 		userConstraints := splitNonEscaped(constraintString, paramConstraintSeparator)
 		constraints = make([]*Constraint, 0, len(userConstraints))
 
